@@ -5368,7 +5368,7 @@ class LoopSum(Loop):
         # move `other` inside this loop. The same holds if `other` contains a
         # loop over the same index, which would otherwise end up nested inside
         # this loop.
-        if self.index not in other.arguments and not any(loop.loop_id == self.loop_id for loop in other._loops):
+        if not any(isinstance(arg, _LoopIndex) and arg.loop_id == self.loop_id for arg in other.arguments) and not any(loop.loop_id == self.loop_id for loop in other._loops):
             return loop_sum(self.func * other, self.index)
 
     @cached_property
